@@ -70,10 +70,13 @@ def build(tree, memo=None):
     if k == "inst":
         cls = tree["cls"]
         if cls == "<file>":
+            from vf.contracts.rt import LogFile
             f = tree["f"]
             data = build(f.get("data", {"k": "bytes", "v": []}), memo)
-            obj = io.BufferedReader(io.BytesIO(data)) if build(f.get("mode", {"k": "str", "v": "rb"}), memo).startswith("r") else io.BytesIO()
+            obj = LogFile(data if isinstance(data, (bytes, bytearray)) else b"")
             memo[tree["id"]] = obj
+            if "written" in f:
+                memo[f["written"].get("id")] = obj.written
             return obj
         if cls.startswith("<"):
             obj = Stub()
